@@ -19,7 +19,7 @@ def run(ctx):
             if not ctx.quick():
                 ctx.model_check("trie", "MC_StateSync", "MC_StateSync_6.cfg", timeout=3000)
             ctx.exhaustive = False  # TLC stage exhaustive; the replayed behaviours are random walks
-        allb = ctx.behaviours("trie", "Gen_StateSync", "Gen_StateSync.cfg", simulate="num=%d" % ctx.pick(200, 600),
+        allb = ctx.behaviours("trie", "Gen_StateSync", ctx.pick("Gen_StateSync_q.cfg", "Gen_StateSync.cfg"), simulate="num=%d" % ctx.pick(200, 600),
                               depth=42, seed=ctx.seed, timeout=ctx.pick(900, 3000))
         if not ctx.quick():  # three-symbol alphabet (6561 initial target maps are enumerated first: thorough only)
             allb += ctx.behaviours("trie", "Gen_StateSync", "Gen_StateSync_w3.cfg", simulate="num=300",
@@ -36,7 +36,7 @@ def run(ctx):
             ctx.check_coverage(r1, ["SUBSET", "Late", "Migrate"])  # "SUBSET ..." is the Respond disjunct (its text is cut after the quantifier)
             ctx.model_check("trie", "MC_SyncProc", "MC_SyncProc.cfg", timeout=ctx.pick(900, 3000),
                             constants={"Vals": ctx.pick("{1}", "{1, 2}")})
-        procb = ctx.behaviours("trie", "Gen_SyncProc", "Gen_SyncProc.cfg", simulate="num=%d" % ctx.pick(25, 300),
+        procb = ctx.behaviours("trie", "Gen_SyncProc", ctx.pick("Gen_SyncProc_q.cfg", "Gen_SyncProc.cfg"), simulate="num=%d" % ctx.pick(25, 300),
                                depth=32, seed=ctx.seed + 3, timeout=ctx.pick(900, 3000))
     if procb:
         pin = ctx.path("in", "proc.ndjson")
@@ -55,8 +55,9 @@ def run(ctx):
     done = sum((r.get("extra") or {}).get("completed_syncs", 0) for r in recs if r.get("summary"))
     ctx.notes.append("behaviours that run the sync to completion (rebuilt trie compared with the source): %d" % done)
     return ctx.finish(
-        rule="a behaviour = one target trie (random map over 8 keys with shared prefixes, 2 object values so that "
-             "data and subtrees are shared) plus one TLC-chosen arrival sequence: answers to the i-th outstanding request "
+        rule="a behaviour = one target trie (random map over 6 (quick) / 8 keys with shared prefixes, 2 object values so that "
+             "data and subtrees are shared, and a third value whose data is byte-identical to the leaf node of another key, so that "
+             "one hash is wanted in the MerkleTrie and the BytesByHash bucket) plus one TLC-chosen arrival sequence: answers to the i-th outstanding request "
              "in any order, duplicates, forged payloads, genuine but unrequested entries; distinct by (map, arrival "
              "sequence); non-trivial if the sync completes (then the rebuilt trie is compared with the source)",
         assumptions=["MapDB backends, builder over a LayerDB as in merkle.NewBuilder",
